@@ -272,8 +272,13 @@ def coerce_default_value(
     # variable signatures that reuse this function for fragment arguments.)
     default_input = input_value.default
     if default_input is not None:
-        coerced_value = default_input._memoized_coerced_value  # noqa: SLF001
-        if coerced_value is Undefined:
+        memoized = default_input._memoized_coerced_value  # noqa: SLF001
+        # The memoized result is only valid for the type it was coerced against:
+        # a default input object can be shared by schemas derived from each other
+        # (e.g. via extend_schema) in which the type has different fields.
+        if memoized is not Undefined and memoized[0] is input_value.type:
+            coerced_value = memoized[1]
+        else:
             coerced_value = (
                 coerce_input_literal(default_input.literal, input_value.type)
                 if default_input.literal is not None
@@ -290,7 +295,10 @@ def coerce_default_value(
                     f" to be valid, found: {found}."
                 )
                 raise TypeError(msg)
-            default_input._memoized_coerced_value = coerced_value  # noqa: SLF001
+            default_input._memoized_coerced_value = (  # noqa: SLF001
+                input_value.type,
+                coerced_value,
+            )
         return coerced_value
 
     # The deprecated internal default value is used as is.
